@@ -1,0 +1,24 @@
+//go:build verif
+
+// Machine-checked contracts (comment-only; compiled only under the build tag "verif").
+// C14 (Go part): the canary Ingress is built from the stable Ingress' paths that point at the stable Service.
+// The annotation part of C14 lives in Lua scripts and is outside this verifier's reach (see MANIFEST / DESIGN).
+package ingress
+
+//@ define pathsTarget(rule, svc) = rule.HTTP != nil && len(rule.HTTP.Paths) >= 1 && (forall p :: 0 <= p && p < len(rule.HTTP.Paths) ==> rule.HTTP.Paths[p].Backend.Service != nil && rule.HTTP.Paths[p].Backend.Service.Name == svc)
+
+//@ func (*ingressController).buildCanaryIngress
+//@ props C14
+//@ requires r != nil && stableIngress != nil
+//@ ensures is_new_object: result != nil && fresh(result)
+//@ ensures class_and_tls_kept: result.Spec.IngressClassName == stableIngress.Spec.IngressClassName && result.Spec.TLS == stableIngress.Spec.TLS
+//@ ensures at_most_the_stable_rules: len(result.Spec.Rules) <= len(stableIngress.Spec.Rules)
+//@ ensures every_path_targets_canary: forall j :: 0 <= j && j < len(result.Spec.Rules) ==> pathsTarget(result.Spec.Rules[j], r.conf.CanaryService)
+//@ loop 1 invariant outer: 0 <= ir && ir <= len(stableIngress.Spec.Rules) && desiredCanaryIngress != nil && fresh(desiredCanaryIngress) && len(desiredCanaryIngress.Spec.Rules) <= ir && (cap(desiredCanaryIngress.Spec.Rules) == 0 || fresh(desiredCanaryIngress.Spec.Rules))
+//@ loop 1 invariant built: forall j :: 0 <= j && j < len(desiredCanaryIngress.Spec.Rules) ==> pathsTarget(desiredCanaryIngress.Spec.Rules[j], r.conf.CanaryService)
+//@ loop 1 invariant header: desiredCanaryIngress.Spec.IngressClassName == stableIngress.Spec.IngressClassName && desiredCanaryIngress.Spec.TLS == stableIngress.Spec.TLS
+//@ define allCanary(paths, svc) = forall p :: 0 <= p && p < len(paths) ==> paths[p].Backend.Service != nil && paths[p].Backend.Service.Name == svc
+//@ loop 2 invariant inner: 0 <= ip && canaryRule.HTTP != nil && fresh(canaryRule.HTTP) && (cap(canaryRule.HTTP.Paths) == 0 || fresh(canaryRule.HTTP.Paths)) && (hasStableServiceBackendRule == (len(canaryRule.HTTP.Paths) >= 1))
+//@ loop 2 invariant retargeted: allCanary(canaryRule.HTTP.Paths, r.conf.CanaryService)
+//@ loop 2 invariant outer_kept: 0 <= ir && ir < len(stableIngress.Spec.Rules) && desiredCanaryIngress != nil && fresh(desiredCanaryIngress) && len(desiredCanaryIngress.Spec.Rules) <= ir && (cap(desiredCanaryIngress.Spec.Rules) == 0 || fresh(desiredCanaryIngress.Spec.Rules)) && desiredCanaryIngress.Spec.IngressClassName == stableIngress.Spec.IngressClassName && desiredCanaryIngress.Spec.TLS == stableIngress.Spec.TLS
+//@ loop 2 invariant built_kept: forall j :: 0 <= j && j < len(desiredCanaryIngress.Spec.Rules) ==> pathsTarget(desiredCanaryIngress.Spec.Rules[j], r.conf.CanaryService)
